@@ -196,11 +196,11 @@ func corrHistory(rep *report, r *rng, hidx int) (string, [3]int) {
 	}
 	snapRO := func(tok string, f func() []int) {
 		roots := c.roots()
-		h0, _ := snapshotHash(roots)
+		before := snapshotLines(roots)
 		res := f()
-		h1, _ := snapshotHash(roots)
-		if h0 != h1 {
-			rep.fail("snapshot-corr:"+strings.SplitN(tok, ":", 2)[0], fmt.Sprintf("history %d: read-only op %s changed the object graph", hidx, tok))
+		after := snapshotLines(roots)
+		if d := diffLines(before, after); d != "" {
+			rep.fail("snapshot-write:"+changedField(before, after), fmt.Sprintf("history %d: read-only op %s wrote shared state: %s", hidx, tok, d))
 		}
 		if len(res) > 0 && res[0] == -1 {
 			stats[2]++
